@@ -44,7 +44,8 @@ Record in_cfg := {
   max_size : Z;          (* MaxEventSize *)
   cut_on : bool;         (* CutOffEventByLimit *)
   mark_on : bool;        (* CutOffEventByLimitField != "" *)
-  as_thr : Z             (* Antispam.Threshold *)
+  as_thr : Z;            (* Antispam.Threshold *)
+  is_cri : bool          (* the pipeline's decoder is CRI *)
 }.
 
 Inductive in_result :=
@@ -55,10 +56,11 @@ Inductive in_result :=
 (* The external parts are parameters of the chain, applied to the bytes checkInputBytes let through:
      cri b       = None: DecodeCRI failed | Some partial   (decoders other than CRI: Some false)
      decode_ok b = the configured decoder accepted b
-   and, for one call, [committed] = streamOffset > 0 && currentOffset < streamOffset.
+   and, for one call, cur = offsets.current, soff = the saved offset of the row's stream.
    Stage 1 = everything before the antispam is consulted. Its result says whether IsSpam is called
-   at all (it is not for partial CRI rows and when Antispam.Threshold < 0) — the "already committed"
-   test sits inside the same branch. *)
+   at all (it is not for partial CRI rows and when Antispam.Threshold < 0). The "already committed"
+   test (streamOffset > 0 && currentOffset < streamOffset) sits inside the same branch and, since
+   the repair a380cb6, is applied to CRI rows only. *)
 Inductive stage1 :=
 | S1Refused (why : reason)
 | S1Crash
@@ -74,7 +76,7 @@ Definition in_stage1 (c : in_cfg) (cri : bytes -> option bool) (cur soff : Z) (b
       | None => S1Refused RCri
       | Some partial =>
           if negb partial && (0 <=? as_thr c) then
-            if (0 <? soff) && (cur <? soff) then S1Refused RCommitted
+            if is_cri c && (0 <? soff) && (cur <? soff) then S1Refused RCommitted
             else S1Go b' cut true
           else S1Go b' cut false
       end
